@@ -16,7 +16,7 @@ ASSUMPTIONS = ["every single entry fits a packet together with the headers (othe
 TRUSTED = ["python deficit monitor (props/C03.py)"]
 
 PREFIX = {"min_nodes": 2, "max_nodes": 4, "min_ops": 15, "max_ops": 45,
-          "weights": {"upsert": 30, "delete": 12, "compact": 8, "leave": 1, "send": 18, "deliver": 16, "dup": 2, "drop": 10, "join": 2}}
+          "weights": {"upsert": 30, "delete": 12, "compact": 8, "leave": 2, "send": 18, "deliver": 16, "dup": 2, "drop": 10, "join": 2}}
 
 
 def exchange(a, b, mx):
@@ -40,10 +40,19 @@ def gen_case(rng, cid, rounds):
     # everybody gets to know everybody (connected knowledge graph): one join per node to node 0
     for n in range(1, nn):
         ops.append({"op": "join", "a": n, "b": 0})
+    # a node that has left is gone: it told (at least) one live node on its way out and takes no part in the rounds,
+    # so the others have to learn its final state - left marker included - through relays
+    gone = sorted({op["n"] % nn for op in ops if op["op"] == "leave"})
+    alive = [i for i in range(nn) if i not in gone]
+    if len(alive) >= 2 or not gone:
+        for y in gone:
+            ops.append({"op": "leavestream", "a": y, "b": rng.choice(alive)})
+    else:
+        alive = list(range(nn))       # (nearly) everybody left: keep them talking, as before
     start = len(ops)
     marks = []
     for r in range(rounds):
-        pairs = [(a, b) for a in range(nn) for b in range(nn) if a != b]
+        pairs = [(a, b) for a in alive for b in alive if a != b]
         rng.shuffle(pairs)
         for a, b in pairs:
             ops += exchange(a, b, rng.choice([215, 230, 260, 300, 350, 420, 600, 1400]))
@@ -111,13 +120,13 @@ def monitor(case, out):
         if i == start - 1:
             round_start_d = d
         if (i + 1) in ends:
-            if d >= round_start_d and not converged(tr, live):
+            if d >= round_start_d and (d > 0 or not converged(tr, live)):
                 big = [e for y in live for e in tr.own(y)["entries"] if (len(e["k"]) + len(e["v"])) // 2 + 90 > minmax]
-                return {"step": i, "why": "a full round of loss-free all-pairs exchanges made no progress (deficit %d) although live views differ from the owners' states: %r"
+                return {"step": i, "why": "a full round of loss-free all-pairs exchanges made no progress (deficit %d) although views differ from the owners' states (live nodes, and nodes that left and are known to the observer): %r"
                                           % (d, {k: v for k, v in per.items() if v}), "sig": "G1-oversize" if big else "stuck"}
             round_start_d = d
-    if not converged(tr, live):
-        d, per = deficit(tr, live)
+    d, per = deficit(tr, live)
+    if d > 0 or not converged(tr, live):
         return {"step": len(case["ops"]) - 1, "why": "not converged after %d rounds (deficit %d still decreasing)" % (len(ends), d), "sig": "slow"}
     return None
 
